@@ -604,6 +604,38 @@ func run(c Case) pbt.Verdict {
 						return
 					}
 				}
+				// The same key looked up right before and right after a change that keeps the number
+				// of nodes: node x is replaced by the new node, then put back.
+				probes := 0
+				for _, ki := range mine {
+					bl, ok := base[ki]
+					if !ok || !subset[ki] {
+						continue
+					}
+					if probes++; probes > 12 {
+						break
+					}
+					cur = ki
+					if got := labelsOf(d.GetOrderedNodes(keys[ki], n)); !equal(got, bl) {
+						fail(ki, "a repeated lookup differs from the first: %v, then %v", bl, got)
+						return
+					}
+					d.RemoveNode(c.Nodes[x].Label)
+					d.AddNode(c.Extra.Label, c.Extra.Weight)
+					got := labelsOf(d.GetOrderedNodes(keys[ki], n))
+					st.lists += 2
+					if len(got) != n || !equal(without(got, extraID), without(bl, ids[x])) || len(without(got, extraID)) != n-1 {
+						fail(ki, "replacing node %s by %s: the list for the same key is %v; before the change it was %v", ids[x], extraID, got, bl)
+						return
+					}
+					d.RemoveNode(c.Extra.Label)
+					d.AddNode(c.Nodes[x].Label, c.Nodes[x].Weight)
+					if got := labelsOf(d.GetOrderedNodes(keys[ki], n)); !equal(got, bl) {
+						fail(ki, "putting node %s back in place of %s did not restore the list for the same key: original %v, now %v", ids[x], extraID, bl, got)
+						return
+					}
+					st.lists++
+				}
 			}
 		}(w)
 	}
@@ -774,7 +806,7 @@ func TestProp(t *testing.T) {
 		ID: "C22",
 		Rule: "part order: generated node set (1-16 distinct labels, weights 1-1000 or all equal), hash/score pair in {murmur3,sha256}x{UInt64ToFloat64,BigIntToFloat64} (murmur3+UInt64 half of the cases), " +
 			"a second insertion order, a node to remove, a new node to add, 8-48 long hex keys (1-512 key bytes, half of them beyond 32 bytes, lengths around 64/128/256 over-represented; one case in three has labels of up to ~230 bytes sharing a long prefix), truncation sizes; for ALL 65536 four-hex-digit keys + the 256 two-digit upper-case keys + the long keys: " +
-			"GetOrderedNodes equals the node set ordered by the harness's own reference score (keys where two reference scores are within 1e-12 relative, 1e-9 for BigIntToFloat64, are skipped and counted), exported Score values strictly descend and match the reference, a list returned earlier is not rewritten by a later lookup or removal, " +
+			"GetOrderedNodes equals the node set ordered by the harness's own reference score (keys where two reference scores are within 1e-12 relative, 1e-9 for BigIntToFloat64, are skipped and counted), exported Score values strictly descend and match the reference, a list returned earlier is not rewritten by a later lookup or removal, the same key looked up right before and after a node is replaced by another (node count unchanged) reflects the replacement, " +
 			"a second hash holding the nodes in the other insertion order plus the new node returns the same list with only the new node inserted, RemoveNode of the drawn node only deletes it; on a subset (every 64th shard, the two-digit keys, the long keys) " +
 			"truncation to n and EVERY single-node RemoveNode and re-AddNode are checked; evaluations = ordered lists judged; non-trivial = at least 2 nodes; distinct = distinct (hash pair, node set). " +
 			"part scorefunc: batches of 64-bit values concentrated on k<<53; UInt64ToFloat64 with a murmur3 re-hasher that already absorbed 0-24 bytes must equal the documented value and lie in (0,1); evaluations = values",
